@@ -126,7 +126,7 @@ prop("C15", "Unbounded proof that a request reaches a route only after the sourc
 L = "(*log.FileIO)."
 prop("C18", "Unbounded proof of the transfer-log look-up: a day file answers yes only for a line that starts with exactly the name followed by the separator and carries ':hash:' behind it, and such a line always answers yes (string theory); the look-up asks for exactly name and hash; the window is walked in one-day steps from start until the cursor has passed the stop, forward and backward, and an empty window opens nothing; the records are written name-first with ':' separators; the log file is synced when required",
      "local-time / DST day arithmetic (24 h days assumed); concurrent writers (single writer goroutine, A1); Parse splits on ':' so names containing the separator shift the fields (not under contract: strings.Split is not modelled)",
-     {"(*log.rollingFile).each": None, "(*log.rollingFile).search$1": None, "(*log.rollingFile).search": None, "(*log.rollingFile).eachLine": None, "(*log.rollingFile).eachLine$1": None, L+"wasWritten": None, L+"WasReceived": None, L+"WasSent": None, L+"Received": None, L+"Sent": None, "(*log.rollingFile).log": None})
+     {"(*log.rollingFile).each": None, "(*log.rollingFile).search": None, "(*log.rollingFile).eachLine": None, "(*log.rollingFile).eachLine$1": None, L+"wasWritten": None, L+"WasReceived": None, L+"WasSent": None, L+"Received": None, L+"Sent": None, "(*log.rollingFile).log": None})
 # C02: cache and verdict codes; C17: store
 P["C02"]["functions"] += ["(*cache.cacheFile).IsDone", "(*cache.JSON).Get", "(*cache.JSON).add", "(*cache.JSON).Done", "(*cache.JSON).Remove", "(*http.confirmed).NotFound", "(*http.confirmed).Waiting", "(*http.confirmed).Failed", "(*http.confirmed).Received", H+"routeValidate"]
 for _p in ("C02", "C07", "C17"):
@@ -201,6 +201,9 @@ _add("C17", "(*store.Local).ShouldIgnore")
 for _f in ("(*log.FileIO).Parse$1", "(*log.FileIO).Parse", "(*log.rollingFile).getCurrPath"):
     _add("C18", _f)
 _add("C15", "stage.New")
+for _p in ("C20", "C05"):
+    for _f in ("(*log.rollingFile).search", "(*log.FileIO).wasWritten", "(*log.FileIO).WasReceived", "(*log.rollingFile).each", "(*log.rollingFile).eachLine", "(*log.rollingFile).eachLine$1"):
+        _add(_p, _f)
 _add("C14", S+"isFileReady", ["predecessor-name-never-reaches-the-file-system"])
 _add("C02", B+"startRetry", ["gone-files-only", "changed-not-resent"])
 
